@@ -1,14 +1,11 @@
 import warnings; warnings.simplefilter('ignore')
-import cirq, numpy as np
-from contracts.C11_roundtrips import _eq
-for st in ([1,1,2j,1],[1,2,3,4],[0.6,0.8],[1,1],[1,1j,1]):
+import cirq, networkx as nx, traceback, itertools
+g=nx.Graph([(cirq.NamedQubit("hub"), cirq.NamedQubit(f"s{i}")) for i in range(4)])
+L=[cirq.NamedQubit(f"L{k}") for k in range(5)]
+c=cirq.Circuit(cirq.H(L[2]), cirq.X(L[3])**0.3, cirq.T(L[2]), cirq.ISWAP(L[3],L[2]), (cirq.CZ**0.5)(L[1],L[3]))
+for la,tag in itertools.product((1,3,8),(False,True)):
+  for mapper in (None, cirq.LineInitialMapper(g)):
     try:
-        g=cirq.StatePreparationChannel(np.array(st,dtype=complex))
+        r=cirq.RouteCQC(g).route_circuit(c, lookahead_radius=la, tag_inserted_swaps=tag, initial_mapper=mapper); 
     except Exception as e:
-        print(st,'ctor',e); continue
-    b=cirq.read_json(json_text=cirq.to_json(g)); print(st, g==b, np.max(np.abs(g._state-b._state)))
-vals=[np.array([[1, 2], [3, 4]]), cirq.MatrixGate(np.array([[0, 1j], [-1j, 0]])), cirq.KrausChannel([np.eye(2) * np.sqrt(0.5), np.array([[0, 1], [1, 0]]) * np.sqrt(0.5)], key="k"),
- cirq.ResultDict(params=cirq.ParamResolver({"a": 0.5}), measurements={"m": np.array([[0, 1], [1, 1]], dtype=np.uint8)}),
- cirq.ResultDict(params=cirq.ParamResolver({}), records={"m": np.array([[[0], [1]], [[1], [1]]], dtype=np.uint8)})]
-for v in vals:
-    b=cirq.read_json(json_text=cirq.to_json(v)); print(type(v).__name__, _eq(b,v), type(b).__name__)
+        print(la,tag,mapper); traceback.print_exc(limit=-4); break
